@@ -10,7 +10,9 @@
      (read sel fmt roi (cp...)) -> RD                    RD = (ok v) | (err) | (nofuel)
      (asarray fmt roi v)      -> v
      (rfile fmt roi (cp...))  -> (ok v...) | (err) | (nofuel)     repeated .r on a channel holding the text
-     (form fmt roi v)         -> ((fmt cp...)|(fmtnone)) ((ok v)|(undef))
+     (form fmt roi v)         -> ((fmt cp...)|(fmtnone)) FR           FR = (ok v) | (undef) | (err)
+     (formx fmt roi a (cp...)) -> FR                          a:$text
+     (fmt2 fmt roi w v)       -> ((some cp...) FR|(skip)) | ((none) (skip))     w$v and, for numbers, v:$(w$v)
      (cls c)                  -> (space alpha digit numeric symbolic)
      (shape (cp...))          -> 0|1
      (wint z) -> (cp...)      (pint (cp...)) -> (some z)|none *)
@@ -103,6 +105,13 @@ Definition sx_rd (r : res val) : sx :=
 
 Definition env0 : env := mk_env [] [].
 
+Definition sx_fres (r : fres) : sx :=
+  match r with
+  | FVal v => SL [sx_w "ok"; sx_of_val v]
+  | FUndef => SL [sx_w "undef"]
+  | FErr => SL [sx_w "err"]
+  end.
+
 Definition dispatch (x : sx) : sx :=
   match x with
   | SL [SS t; SZ sel; SL ft; SL rt; a] =>
@@ -112,7 +121,7 @@ Definition dispatch (x : sx) : sx :=
         match val_of_sx 1000 a with
         | Some v =>
             let text := write E C v in
-            let rd := rs E C text in
+            let rd := rs E C (if sel =? 0 then gen_rs_ignore_newline else gen_r_ignore_newline) text in
             SL [SL (sx_w "w" :: map SZ text); sx_rd rd;
                 match rd with Ok v' => SL (sx_w "w2" :: map SZ (write E C v')) | _ => SL [sx_w "w2none"] end;
                 SL [sx_w "writable"; sx_bool (writable E v)];
@@ -121,8 +130,26 @@ Definition dispatch (x : sx) : sx :=
         end
       else if is_tag "read" t then
         match sx_as_zs a with
-        | Some text => sx_rd (rs E C text)
+        | Some text => sx_rd (rs E C (if sel =? 0 then gen_rs_ignore_newline else gen_r_ignore_newline) text)
         | None => sx_err "text"
+        end
+      else sx_err "op"
+  | SL [SS t; SL ft; SL rt; a; b] =>
+      let E := mk_env (fmt_tab ft) (roi_tab rt) in
+      if is_tag "formx" t then
+        match val_of_sx 1000 a, sx_as_zs b with
+        | Some v, Some text => sx_fres (form E v text)
+        | _, _ => sx_err "formx"
+        end
+      else if is_tag "fmt2" t then
+        match val_of_sx 1000 a, val_of_sx 1000 b with
+        | Some w, Some v =>
+            match format2 E w v with
+            | Some text => SL [SL (sx_w "some" :: map SZ text);
+                               match v with VInt _ | VReal _ => sx_fres (form E v text) | _ => SL [sx_w "skip"] end]
+            | None => SL [SL [sx_w "none"]; SL [sx_w "skip"]]
+            end
+        | _, _ => sx_err "fmt2"
         end
       else sx_err "op"
   | SL [SS t; SL ft; SL rt; a] =>
@@ -135,7 +162,7 @@ Definition dispatch (x : sx) : sx :=
       else if is_tag "rfile" t then
         match sx_as_zs a with
         | Some text =>
-            match read_file E gen_cfg_r gen_r_lstrip gen_r_reposition_bytes text with
+            match read_file E gen_cfg_r gen_r_lstrip gen_r_reposition_bytes gen_r_ignore_newline text with
             | Ok vs => SL (sx_w "ok" :: map sx_of_val vs)
             | Err => SL [sx_w "err"]
             | NoFuel => SL [sx_w "nofuel"]
@@ -146,8 +173,7 @@ Definition dispatch (x : sx) : sx :=
         match val_of_sx 1000 a with
         | Some v =>
             match format E v with
-            | Some text => SL [SL (sx_w "fmt" :: map SZ text);
-                               match form E v text with Some v' => SL [sx_w "ok"; sx_of_val v'] | None => SL [sx_w "undef"] end]
+            | Some text => SL [SL (sx_w "fmt" :: map SZ text); sx_fres (form E v text)]
             | None => SL [SL [sx_w "fmtnone"]; SL [sx_w "undef"]]
             end
         | None => sx_err "value"
